@@ -427,6 +427,8 @@ pub fn args_for(rng: &mut Rng, kind: usize, t: Tup, other: Tup) -> Vec<i64> {
     "TABOO" | "TABOO.hour" => vec![rng.range(0, 59), rng.range(0, 59)],
     "PROVIDER" => vec![rng.range(0, 3), t.y, am, t.d.min(28).max(1), t.h, t.mi, t.s, rng.range(0, 1)],
     "STAR" => vec![rng.range(0, 4), if rng.chance(1, 2) { t.y } else { rng.range(-30, 90) }],
+    "NAME" => vec![rng.range(0, NAME_TYPES.len() as i64 - 1), rng.range(0, 12), *rng.pick(&[0i64, 0, 2, 2, 2, 1, 3]), rng.range(0, NAME_TYPES.len() as i64 - 1)],
+    "NAME2" => vec![rng.range(0, 3), rng.range(0, 70), *rng.pick(&[0i64, 0, 0, 1, 2, 3]), t.y],
     other => panic!("args_for: unknown kind {}", other),
   }
 }
@@ -671,6 +673,56 @@ pub fn gen_run(rng: &mut Rng, sw: &Swarm, pool: &[Query], leap: &Leap, reset: bo
           }
         }
       }
+      // pattern: a value, a getter on it (filling whatever it memoises), a value derived from it,
+      // getters on the derived value
+      if rng.chance(1, 8) && threads[t].len() + 5 <= sw.ops_per_thread {
+        let f = *rng.pick(&recent_tuples);
+        let (sa, sb) = (rng.below(SLOTS as u64) as usize, rng.below(SLOTS as u64) as usize);
+        let cands: Vec<usize> = hkinds.iter().cloned().filter(|k| [0usize, 1, 2, 4].contains(k)).collect();
+        if sa != sb && !cands.is_empty() {
+          let kind = *rng.pick(&cands);
+          let am = f.m.abs().max(1);
+          let sd = f.d.min(28).max(1);
+          let (args, derive, dk): (Vec<i64>, Op, usize) = match kind {
+            0 => {
+              if rng.chance(1, 2) {
+                (vec![f.y, f.m, f.d], Op::HHour { from: sa, to: sb, k: *rng.pick(&[0usize, 12, 12, 6]) }, 1)
+              } else {
+                (vec![f.y, f.m, f.d], Op::HDay { from: sa, to: sb, variant: 1 }, 2)
+              }
+            }
+            1 => {
+              let h = *rng.pick(&[f.h, 23, 23, 0]);
+              if rng.chance(2, 3) {
+                (vec![f.y, f.m, f.d, h, f.mi, f.s], Op::HDay { from: sa, to: sb, variant: 0 }, 0)
+              } else {
+                (vec![f.y, f.m, f.d, h, f.mi, f.s], Op::HDay { from: sa, to: sb, variant: 1 }, 3)
+              }
+            }
+            2 => (vec![f.y, am, sd], Op::HHour { from: sa, to: sb, k: *rng.pick(&[0usize, 11, 6]) }, 3),
+            _ => (vec![f.y, f.m, rng.range(0, 3), rng.range(0, 6)], Op::HDay { from: sa, to: sb, variant: 0 }, 0),
+          };
+          let seq = vec![
+            Op::HNew { slot: sa, kind, args },
+            Op::HGet { slot: sa, g: rng.below(crate::handles::HGETTERS[kind] as u64) as i64 },
+            derive,
+            Op::HGet { slot: sb, g: rng.below(crate::handles::HGETTERS[dk] as u64) as i64 },
+            Op::HGet { slot: sb, g: rng.below(crate::handles::HGETTERS[dk] as u64) as i64 },
+          ];
+          slots_used[t][sa] = true;
+          slots_used[t][sb] = true;
+          slot_kind[t][sa] = kind;
+          slot_kind[t][sb] = dk;
+          slot_tup[t][sa] = f;
+          slot_tup[t][sb] = f;
+          for op in seq {
+            threads[t].push(op);
+            gs.handle_ops += 1;
+            emitted += 1;
+          }
+          continue;
+        }
+      }
       let op = if filled.is_empty() || rng.chance(1, 4) {
         let mut base = *rng.pick(&recent_tuples);
         if !filled.is_empty() && rng.chance(1, 3) {
@@ -750,6 +802,28 @@ pub fn gen_run(rng: &mut Rng, sw: &Swarm, pool: &[Query], leap: &Leap, reset: bo
       threads[t].push(op);
       gs.handle_ops += 1;
       emitted += 1;
+      continue;
+    }
+    // pattern: the same name looked up in two different name tables of the same size, both ways
+    // (a lookup cache keyed by too little of the table's identity), on one thread
+    if sw.fam[FAM_SC] && rng.chance(1, 30) && threads[t].len() + 3 <= sw.ops_per_thread {
+      let kn = kind_by_name("NAME").unwrap();
+      let nt = NAME_TYPES.len();
+      let ta = rng.below(nt as u64) as usize;
+      let size = name_table_size(ta);
+      let same: Vec<usize> = (0..nt).filter(|x| *x != ta && name_table_size(*x) == size).collect();
+      let tb = if !same.is_empty() && rng.chance(4, 5) { *rng.pick(&same) } else { rng.below(nt as u64) as usize };
+      let n = rng.below(size.max(1) as u64) as i64;
+      let n2 = rng.below(size.max(1) as u64) as i64;
+      let seq = vec![
+        Query::new(kn, vec![ta as i64, n, 0, 0]),
+        Query::new(kn, vec![tb as i64, n, 2, ta as i64]),
+        Query::new(kn, vec![ta as i64, n2, 2, tb as i64]),
+      ];
+      for q in seq {
+        threads[t].push(Op::Q { q, stop: false });
+        emitted += 1;
+      }
       continue;
     }
     // plain queries
